@@ -5,7 +5,7 @@ from props._script import run_script_property
 def run():
     from props._script import DEFAULT_KINDS
     chk = run_script_property(
-        "C03", "model_checking", kinds=DEFAULT_KINDS + ["crossplist"],
+        "C03", "model_checking", kinds=DEFAULT_KINDS + ["crossplist", "dupkeys"],
         extra_rule="C03 clauses: at every frame the cost the implementation reports for the compound edit equals the "
                    "sum of the costs of the events listed inside it; the annotated tree's edited_cost(), the sum over "
                    "get_all_edits() and the fully refined top-level bounds all equal the script total.")
